@@ -167,11 +167,94 @@ class Grd:
             ci = call_info(self.u, e)
             if ci is None or ci.decl is None:
                 return None
+            base = ci.decl["qn"].split("<")[0]
+            if base == "std::equal" and len(ci.args) == 4:
+                # element-wise comparison of two complete point sequences: a.begin(), a.end(), b.begin(), b.end()
+                ends = []
+                for a_, nm in zip(ci.args, ("begin", "end", "begin", "end")):
+                    x = strip(a_)
+                    while x is not None and x["k"] in CTOR_KINDS and len(kids(x)) == 1:
+                        x = strip(kids(x)[0])
+                    c2 = call_info(self.u, x) if x is not None and x["k"] in CALL_KINDS else None
+                    if c2 is None or c2.decl is None or c2.obj is None or c2.decl["name"] not in (nm, "c" + nm):
+                        return None
+                    ends.append(c2.obj)
+                pa, pb = P.path(ends[0]), P.path(ends[2])
+                if pa is None or pb is None or pa != P.path(ends[1]) or pb != P.path(ends[3]):
+                    return None
+                return (True, ends[0], ends[2], e)
             cmp_ = COMPARATORS.get(ci.decl.get("pqn"))
             if cmp_ is None or ci.obj is None or len(ci.args) != 1:
                 return None
             return (cmp_[0] == "==", ci.obj, ci.args[0], e)
         return None
+
+    def _algo_range_guard(self, f, cond, P, depth=0):
+        """(polarity, range argument expr, node) if cond is all_of / none_of / any_of over a range whose lambda
+        compares the grid of its element with a reference grid: polarity True <=> 'condition true means all equal'."""
+        e = strip(cond)
+        if e is None or depth > 3:
+            return None
+        if e["k"] == "UnaryOperator" and e.get("op") == "!":
+            r = self._algo_range_guard(f, kids(e)[0], P, depth + 1)
+            return (not r[0], r[1], r[2]) if r else None
+        if e["k"] == "DeclRefExpr":
+            for n in f.all_nodes():
+                if n["k"] == "VarDecl" and n["id"] == e["d"] and kids(n) and self.u.types[n["t"]] == "const bool":
+                    return self._algo_range_guard(f, kids(n)[0], P, depth + 1)
+            return None
+        if e["k"] not in CALL_KINDS:
+            return None
+        ci = call_info(self.u, e)
+        if ci is None or ci.decl is None or len(ci.args) != 3:
+            return None
+        base = ci.decl["qn"].split("<")[0]
+        if base not in ("std::all_of", "std::none_of", "std::any_of"):
+            return None
+        lam = None
+        for x in walk(ci.args[2]):
+            if x["k"] == "LambdaExpr":
+                lam = x
+                break
+            if x["k"] == "DeclRefExpr":
+                # a closure held in a local variable
+                for n in f.all_nodes():
+                    if n["k"] == "VarDecl" and n["id"] == x["d"] and kids(n):
+                        for y in walk(kids(n)[0]):
+                            if y["k"] == "LambdaExpr":
+                                lam = y
+                                break
+                if lam is not None:
+                    break
+        if lam is None:
+            return None
+        body = self.u.func_of(lam["callop"])
+        if body is None or len(body.decl["params"]) != 1:
+            return None
+        # the lambda returns (a negation of) a grid comparison between its parameter and something else
+        rets = [n for n in body.all_nodes() if n["k"] == "ReturnStmt" and kids(n)]
+        if len(rets) != 1:
+            return None
+        Pb = Paths(self.u, body, self.getters)
+        r = self._cond_comparison(body, kids(rets[0])[0], Pb)
+        if r is None:
+            return None
+        equal_if_true, lhs, rhs, _ = r
+        param = body.decl["params"][0]["id"]
+        roots = [Pb.root(Pb.path(x)) for x in (lhs, rhs)]
+        on_param = [rt is not None and rt[0] == "var" and rt[1] == param for rt in roots]
+        if sum(1 for x in on_param if x) != 1:
+            return None   # the element must be compared with something else (a reference element / grid)
+        # all_of(equal) / none_of(differ): true <=> all equal;  any_of(differ): true <=> some differ
+        if base == "std::all_of":
+            pol = equal_if_true
+        elif base == "std::none_of":
+            pol = not equal_if_true
+        else:
+            pol = None if equal_if_true else False
+        if pol is None:
+            return None
+        return (pol, ci.args[0], e)
 
     def _throw_code(self, g, blk):
         """ErrorCode enumerator names thrown at the end of paths starting in block blk (all must throw)."""
@@ -210,6 +293,19 @@ class Grd:
                 continue
             r = self._cond_comparison(f, c, P)
             if r is None:
+                ra = self._algo_range_guard(f, c, P)
+                if ra is not None:
+                    all_equal_if_true, rng_expr, calln = ra
+                    differ = blk["succ"][1] if all_equal_if_true else blk["succ"][0]
+                    if differ is not None and g.reaches_only_throw(differ):
+                        ri_ = self.arg_input(f, rng_expr, P)
+                        if ri_ is None:
+                            found = self.carried_inputs(f, rng_expr, P)
+                            ri_ = next(iter(found)) if len(found) == 1 else None
+                        if ri_ is not None:
+                            sites.append(dict(kind="call", block=b, idx=len(blk["el"]), li=ri_, ri=ri_, range=True,
+                                              line=calln.get("l"), node=calln, callee="std algorithm over the range",
+                                              codes=self._throw_code(g, differ), algo=True))
                 continue
             equal_if_true, lhs, rhs, calln = r
             s_true, s_false = blk["succ"][0], blk["succ"][1]
